@@ -238,6 +238,7 @@ var allOps32 = []string{
 	"FlipS", "AddOffset", "DenseRT", "BitSetRT",
 	"Contains", "IsEmpty", "Card", "Min", "Max", "Rank", "Select", "CardInRange", "IntersectsInterval",
 	"NextValue", "PreviousValue", "NextAbsentValue", "PreviousAbsentValue", "ToArray", "ChecksumEq", "ChecksumRT",
+	"Ser", "Load", "WriteFail", "Freeze", "FrozenRT", "LoadLegal", "DetachAll", "Scribble",
 }
 
 func profile(name string) Profile {
@@ -295,6 +296,31 @@ func profile(name string) Profile {
 		set(5, "Clone", "FlipS", "AddOffset", "SetCOW")
 		set(8, "Add", "Remove", "CheckedAdd", "CheckedRemove")
 		set(3, "AddRange", "RemoveRange", "Flip", "AddMany", "RunOptimize", "Detach")
+	case "serial": // C05 / C06 / C13
+		set(8, "Ser", "Load", "Freeze", "FrozenRT", "LoadLegal")
+		set(4, "WriteFail")
+		set(3, mut...)
+		set(3, "RunOptimize", "Clone", "Detach")
+		set(2, alg...)
+		set(2, "Equals", "Card")
+		set(5, "Build")
+	case "legal": // C06 read direction: every legal encoder choice
+		set(12, "LoadLegal")
+		set(3, alg...)
+		set(2, mut...)
+		set(2, q...)
+		set(1, nb...)
+		set(3, "Build")
+		set(2, "Ser", "Equals")
+	case "zerocopy": // C08
+		set(6, "Load", "FrozenRT", "LoadLegal")
+		set(5, mut...)
+		set(4, alg...)
+		set(2, agg...)
+		set(3, "Clone", "FlipS", "AddOffset", "Detach", "RunOptimize")
+		set(3, "DetachAll", "Scribble")
+		set(6, "Build")
+		set(1, "Card", "Equals", "ToArray")
 	default: // "all" (C09/C14 union driver)
 		set(4, mut...)
 		set(3, maint...)
@@ -304,6 +330,8 @@ func profile(name string) Profile {
 		set(3, tr...)
 		set(1, q...)
 		set(1, nb...)
+		set(2, "Load", "FrozenRT", "LoadLegal")
+		set(1, "Ser", "Freeze", "DetachAll")
 	}
 	return Profile{Name: name, Weights: w}
 }
@@ -529,6 +557,39 @@ func (g *Gen) next(e *Exec) Call {
 		c.Num = &k
 	case "ChecksumRT":
 		c.X = g.slot()
+	case "Ser":
+		c.X, c.V = g.slot(), r.Intn(4)
+	case "Load":
+		c.Dst, c.X, c.V, c.W, c.J = g.slot(), g.slot(), r.Intn(6), r.Intn(2), r.Intn(8)
+		if g.p.Name == "zerocopy" && r.Intn(3) != 0 {
+			c.V = 2 + r.Intn(2)
+		}
+	case "WriteFail":
+		c.X, c.V, c.W = g.slot(), r.Intn(4), r.Intn(2)
+	case "Freeze":
+		c.X, c.V = g.slot(), r.Intn(4)
+	case "FrozenRT":
+		c.Dst, c.X, c.V = g.slot(), g.slot(), r.Intn(2)
+	case "LoadLegal":
+		c.Dst = g.slot()
+		c.As = g.atomSubset()
+		n := Num{}
+		for _, a := range c.As {
+			n = n.add(g.u.atom(a).W)
+		}
+		if n.cmp(numFromU64(1<<21)) > 0 {
+			return g.next(e)
+		}
+		c.V, c.W, c.J = r.Intn(64), r.Intn(5), r.Intn(8)
+		if g.p.Name != "legal" {
+			// outside the C06 read-direction profile only canonical encodings are loaded (maximal runs, runs
+			// only where they are smaller), so that C09/C13/C14 keep talking about library-made bitmaps
+			c.V = r.Intn(2) | pick(r, []int{0, 3})<<1
+		}
+		if g.p.Name == "zerocopy" {
+			c.W = 2 + r.Intn(2)
+		}
+	case "DetachAll", "Scribble":
 	}
 	return c
 }
